@@ -21,6 +21,25 @@ class G(NodeMixin):
         self.i = i
 
 
+class GE(NodeMixin):
+    """value/container semantics: all instances equal (and hashable), empty, falsy"""
+
+    def __init__(self, i):
+        self.i = i
+
+    def __eq__(self, other):
+        return True
+
+    def __ne__(self, other):
+        return False
+
+    def __hash__(self):
+        return 4
+
+    def __len__(self):
+        return 0
+
+
 def ref_esc(value):
     out = []
     for ch in str(value):
@@ -120,7 +139,7 @@ def _setup(cfg):
     variant = VARIANTS[nondet_int(0, len(VARIANTS) - 1, "variant")]
     nrot = variant[0]
     maxlevel = nondet_sym(int, "maxlevel") if nondet_bool("maxlevel_given") else None
-    nodes = build(pv, G)
+    nodes = build(pv, GE if cfg.get("valsem") else G)
     for i, nd in enumerate(nodes):
         nd.name = NAMES[(nrot + i) % len(NAMES)]
     return n, pv, parent, children, s, maxlevel, nodes, variant
@@ -263,7 +282,7 @@ def dot_body(cfg):
         exporter.maxlevel = None
         exporter.stop = None
         exporter.filter_ = None
-        new = G(n)
+        new = type(nodes[0])(n)
         new.name = "new"
         new.parent = nodes[s]
         pre2 = []
@@ -370,7 +389,7 @@ def mermaid_body(cfg):
         exporter.maxlevel = None
         exporter.stop = None
         exporter.filter_ = None
-        new = G(n)
+        new = type(nodes[0])(n)
         new.name = "new"
         new.parent = nodes[s]
         allnodes = nodes + [new]
